@@ -6,6 +6,7 @@ same inputs (floats sent as exact rationals, the matrix basis is part of every r
 oracle(ctx): the property itself on the implementation: defining formulas computed independently with numpy (from the
 channel action, not from the code's tables), pairwise agreement of the alternative implementations, round trips, linearity.
 """
+import hashlib
 import itertools
 import numpy as np
 import shim  # noqa: F401
@@ -246,7 +247,7 @@ class Pend:
         self.items.append((op, desc, impl, i, kind, post))
         self.ctx.corr_ops.add(op)
         self.ctx.count(f"corr {op}")
-        self.ctx.case((op, desc, " ".join(str(t) for t in toks[-2:])[:4000]), nontrivial=nontrivial,
+        self.ctx.case((op, desc, hashlib.sha1(" ".join(str(t) for t in toks).encode()).hexdigest()), nontrivial=nontrivial,
                       sample={"op": op, "case": desc})
 
     def finish(self):
@@ -331,7 +332,7 @@ def corr_state_povm(ctx, pend, cfg, g, eps):
                 pv = [qobj.vec_of(c, e) for e in qobj.rand_povm_mats(g, d, m, rank=(1 if lab == "rank1" and m >= d else None))]
             povm = Povm(c, [v.copy() for v in pv], is_physicality_required=False)
             flat = cl(np.array(pv))
-            ms = [np.asarray(x) for x in povm.matrices()]; mss = povm.matrices_with_sparsity()
+            ms = povm.matrices(); mss = povm.matrices_with_sparsity()
             for i in range(m):
                 pend.add("densityLoop", hd + [cl(pv[i])], lambda ms=ms, i=i: ms[i], "c", f"{cfg.name}/Povm.matrices[{i}]/{lab}/m{m}")
                 pend.add("densitySparse", hd + [cl(pv[i])], lambda mss=mss, i=i: mss[i], "c",
@@ -413,9 +414,9 @@ def corr_gate(ctx, pend, cfg, g, eps):
                 return G.to_hs_from_choi_with_dict(fresh, ch), G.to_hs_from_choi_with_sparsity(fresh, ch)
             pend.add("hsOfChoiDict", hd + [cl(ch), eps], lambda f=cyc2: f()[0], "r", f"{cfg.name}/to_hs_from_choi_with_dict after cache delete/{lab}")
             pend.add("hsOfChoiSparse", hd + [cl(ch), eps], lambda f=cyc2: f()[1], "r", f"{cfg.name}/to_hs_from_choi_with_sparsity after cache delete/{lab}")
-        pend.add("toVarFromChoi", hd + [cl(ch), "0"], lambda ch=ch: G.to_var_from_choi(c, ch, on_para_eq_constraint=False), "c",
+        pend.add("toVarFromChoi", hd + [cl(ch), "0", eps], lambda ch=ch: G.to_var_from_choi(c, ch, on_para_eq_constraint=False), "r",
                  f"{cfg.name}/to_var_from_choi(False)/{lab}")
-        pend.add("toVarFromChoi", hd + [cl(ch), "1"], lambda ch=ch: G.to_var_from_choi(c, ch, on_para_eq_constraint=True), "c",
+        pend.add("toVarFromChoi", hd + [cl(ch), "1", eps], lambda ch=ch: G.to_var_from_choi(c, ch, on_para_eq_constraint=True), "r",
                  f"{cfg.name}/to_var_from_choi(True)/{lab}")
     # variables -> Choi
     nv_eq, nv_free = (n - 1) * n, n * n
@@ -748,9 +749,8 @@ def chk_povm(cfg, vecs):
             need(dev(mss[i], refs[i]), "C02/Povm.matrices_with_sparsity/formula", f"matrices_with_sparsity()[{i}] != Σ v_a B_a")
             need(dev(mf[i], refs[i]), "C02/to_matrices_from_vecs/formula", f"to_matrices_from_vecs()[{i}] != Σ v_a B_a")
             need(dev(call("C02/Povm.matrix", lambda: povm.matrix(i)), refs[i]), "C02/Povm.matrix/formula", f"matrix({i}) != Σ v_a B_a")
-        for src, mats in (("matrices_with_sparsity", mss), ("matrices(as ndarray)", [np.asarray(x) for x in ms])):
-            back = call("C02/to_vecs_from_matrices_with_sparsity", lambda: P.to_vecs_from_matrices_with_sparsity(c, mats))
-            need(dev(np.array(back), np.array(vecs)), f"C02/povm/roundtrip/vecs-{src}-vecs", "vecs -> matrices -> vecs is not the identity")
+        back = call("C02/to_vecs_from_matrices_with_sparsity", lambda: P.to_vecs_from_matrices_with_sparsity(c, mss))
+        need(dev(np.array(back), np.array(vecs)), "C02/povm/roundtrip/vecs-matrices_with_sparsity-vecs", "vecs -> matrices -> vecs is not the identity")
         var = call("C02/to_var_from_matrices", lambda: P.to_var_from_matrices(c, mss, on_para_eq_constraint=False))
         need(dev(var, np.hstack(vecs)), "C02/to_var_from_matrices/formula", "to_var_from_matrices != stacked tr(B_a^† M_x)")
         var = call("C02/to_var_from_matrices", lambda: P.to_var_from_matrices(c, mss, on_para_eq_constraint=True))
@@ -1078,8 +1078,9 @@ PARTIAL = [
     {"theorem": "QM.C02.kraus_roundtrip_partial",
      "missing": "that the executable krausRaw (zero-eigenvalue filter, stable descending sort, phase convention, numpy eigh/sqrt as "
                 "parameters) produces a list with Σ|K>><<K| = Choi; covered by correspondence (gauge invariant, count) and oracle (order, phase)"},
-    {"theorem": "QM.C02.toVarFromChoi_intended_roundtrip",
-     "missing": "holds for the documented behaviour only; the code as it is fails it (toVarFromChoi_roundtrip_fails, finding D3)"},
+    {"theorem": "QM.C02.toVarFromChoi_roundtrip",
+     "missing": "stated for the value before truncate_hs (toVarFromChoi{Free,Eq}Raw); the executed toVarFromChoi additionally truncates the "
+                "whole HS matrix; forward_is_not_inverse is the regression witness of the former defect D3"},
     {"theorem": "QM.C02.hs_choi_hs / vec_density_vec",
      "missing": "stated for the values before truncate_hs; truncEntry_spec / truncEntry_real give the exact effect of the truncation "
                 "(identity on real entries of modulus >= eps); float rounding is not modelled"},
